@@ -232,6 +232,8 @@ class AEval:
                 if a[1] not in o.attrs:
                     raise AnalysisError('abstract evaluation: attribute %s of %s is not part of the abstraction (%s)' % (a[1], o.oid, e.loc))
                 return o.attrs[a[1]]
+            if isinstance(o, tuple) and a[1] in getattr(o, '_fields', ()):
+                return getattr(o, a[1])      # record value (named tuple of the abstraction)
             raise AnalysisError('abstract evaluation: attribute %s of %r at %s' % (a[1], o, e.loc))
         if k == 'index':
             o = self.ev(a[0], env, depth)
@@ -317,6 +319,11 @@ class AEval:
             return args[0]
         if name == 'cast':
             return args[1]
+        if name == 'setattr' and isinstance(args[0], AObj):
+            args[0].attrs[args[1]] = args[2]
+            return None
+        if name == 'getattr' and isinstance(args[0], AObj) and args[1] in args[0].attrs:
+            return args[0].attrs[args[1]]
         if name == 'isinstance':
             raise AnalysisError('abstract evaluation: isinstance at %s' % e.loc)
         if self.module is not None and name in self.module.funcs:
